@@ -238,6 +238,9 @@ def fam_trees(tier):
         for fam, depth, label, trees in families(tier):
             if only and fam not in only:        # development / demo aid
                 continue
+            stride = int(os.environ.get("PV_C02_STRIDE", "1"))   # development aid
+            if stride > 1:
+                trees = trees[::stride]
             if label:
                 trees = [relabel(t, [0, 0]) for t in trees]
             res[fam] = (depth, trees)
@@ -566,9 +569,10 @@ def run(tier):
     refused = sum(1 for c in cases if c["rd"] == 0)
     if tier != "quick":
         cov["exhaustive"] = False      # the 1-in-5 and depth-4 families are samples
-    if os.environ.get("PV_C02_ONLY"):
+    if os.environ.get("PV_C02_ONLY") or os.environ.get("PV_C02_STRIDE"):
         cov["exhaustive"] = False
-        cov["restricted_to"] = os.environ["PV_C02_ONLY"]
+        cov["restricted_to"] = (os.environ.get("PV_C02_ONLY", "all families") + " stride "
+                                + os.environ.get("PV_C02_STRIDE", "1"))
     cov["evaluations"] = total
     cov["distinct_nontrivial"] = nontrivial
     cov["reader_refused"] = refused
